@@ -636,7 +636,10 @@ func (c *Conn) readRecordOrCCS(expectChangeCipherSpec bool) error {
 			// DTLCP 沿用 TLCP 版本号 0x0101，TLS 为 0x0301~0x0304，均 < 0x1000；
 			// DTLS 1.0(0xFEFF)/1.2(0xFEFD) 均 >= 0x1000。
 			// 配合首条记录必须为 Alert 或 Handshake 的类型检查，可有效防止 DTLS 客户端误连。
-			if (typ != recordTypeAlert && typ != recordTypeHandshake) || vers >= 0x1000 {
+			// 记录类型检查只针对首条记录：会话重用时 ServerHello、CCS、Finished 在同一数据报中，
+			// 客户端在处理 ServerHello（确定版本）之前就会读到其后的 CCS 记录（此时 handBuf 非空）。
+			firstRecord := c.handBuf.Len() == 0
+			if (firstRecord && typ != recordTypeAlert && typ != recordTypeHandshake) || vers >= 0x1000 {
 				return c.in.setErrorLocked(c.newRecordHeaderError(c.remoteAddr, "first record does not look like a TLCP handshake"))
 			}
 		}
